@@ -15,3 +15,4 @@ import OtterVerif.Props.C20
 import OtterVerif.Props.C18
 import OtterVerif.Props.C13
 import OtterVerif.Props.C14
+import OtterVerif.Props.C16
